@@ -60,6 +60,17 @@ Theorem C19_coarse_dt :
 Proof. exact coarse_dt_sum. Qed.
 Print Assumptions C19_coarse_dt.
 
+(* a restricted grid restricted once more (an asset window inside an interval of the horizon) is the grid restricted to the
+   intersection of the two windows: the same indices in the ORIGINAL grid, points, step lengths, cumulated times, discount factors *)
+Theorem C19_restricted_twice :
+  forall g disc s1 e1 s2 e2,
+  restrict_rg (restrict g disc s1 e1) s2 e2 = restrict g disc (Z.max s1 s2) (Z.min e1 e2).
+Proof. exact restrict_twice. Qed.
+Print Assumptions C19_restricted_twice.
+Example C19_restricted_twice_nonvacuous :
+  rg_I (restrict_rg (restrict (Build_grid [0; 10; 20; 30; 40]%Z 0 40 10) [1; 1; 1; 1] 10 40) 0 30) = [1; 2]%nat.
+Proof. vm_compute. reflexivity. Qed.
+
 (* interval data: the value of the unique containing interval, undefined outside, overlap rejected *)
 Theorem C19_interval_data :
   forall tp ivs res, values_to_grid tp ivs = Some res ->
